@@ -29,7 +29,7 @@ CHECKS = {
    note=TB + "Precondition of the remover respected: anonymous components are expanded before it runs. Outside: anonymous-component expansion (needs template signatures) and the equivalence of the expansion with the hand-written form; deeper nestings.",
    ref="DESIGN.md §3 C18"),
  'C19': dict(
-   text="Partial (FileStack): FileStack::{new, add_libraries, add_files, add_include, include_library, take_next, is_user_input} executed from MIR over an abstract file system (fs::canonicalize = arbitrary symbolic partial map from spellings to 3 canonical files, identity on canonical paths): from an arbitrary state whose stack holds canonical paths, take_next yields only unvisited paths, marks exactly the yielded one and shrinks the stack (=> each file at most once, cycles and diamonds terminate); add_include preserves the invariant (pushes canonical paths only) and a failed include is located at the include statement; every .circom input is pushed in canonical form or reported; is_user_input iff canonical path of a named input.",
+   text="Partial (FileStack): FileStack::{new, add_libraries, add_files, add_include, include_library, take_next, is_user_input} executed from MIR over an abstract file system (fs::canonicalize = arbitrary symbolic partial map from spellings to 3 canonical files, identity on canonical paths): from an arbitrary state whose stack holds canonical paths, take_next yields only unvisited paths, marks exactly the yielded one and shrinks the stack (=> each file at most once, cycles and diamonds terminate); add_include preserves the invariant (pushes canonical paths only) and a failed include is located at the include statement; FileStack::new with no library / a library directory / a library file / both: every .circom input that cannot be read is reported, the initial stack is exactly the readable named inputs in canonical form (nothing else is parsed unless it is included), and is_user_input holds iff the path is the canonical path of a named input (a library file is never a user input).",
    note=TB + "The file-system stub is the assumption. Outside: real path spelling and symlinks, directories as inputs, that parse_files uses the stack as intended, findings for included definitions (C03 filter clause).",
    ref="DESIGN.md §3 C19"),
  'C20': dict(
@@ -45,8 +45,8 @@ CHECKS = {
    note=TB + "Partial: tuple / anonymous-component desugaring and IR lifting are outside (statements are built in IR form); array-element and component-port targets are outside the bound.",
    ref="DESIGN.md §3 C08"),
  'C10': dict(
-   text="Partial. (scope) ensure_unique_variables with its DeclarationEnvironment and the scoped RawEnvironment executed from MIR on every program of <=4 (thorough 5) items - declarations, reads and assignments of two names (one also a parameter) in arbitrarily nested blocks; the program index is a solver variable: after renaming all declarations carry distinct names, every use carries the name of the innermost preceding visible declaration (textbook block-scoping oracle), and a shadowing report is produced for exactly the redeclarations of a visible name with the shadowed declaration as secondary location. (keys) the SSA version environment with SYMBOLIC identifier strings: the solver searches for two different (name, suffix) pairs sharing a version counter (e.g. `x`+suffix `0` vs `x_0`); fresh versions; scope exit restores the version current at entry. (split) `name` / `name.N` are split back into name and suffix.",
-   note=TB + "Outside: the statement/expression traversal of ssa_impl.rs that applies the keys, for-loop scoping as produced by the parser, longer identifiers, repeated parameter names.",
+   text="Partial. (scope) ensure_unique_variables with its DeclarationEnvironment and the scoped RawEnvironment executed from MIR on every program of <=4 (thorough 5) items - declarations, reads and assignments of two names (one also a parameter), at most one array declaration `var n[m]` whose size expression reads a name, in arbitrarily nested blocks; the program index is a solver variable: after renaming all declarations carry distinct names, every use carries the name of the innermost preceding visible declaration (textbook block-scoping oracle), and a shadowing report is produced for exactly the redeclarations of a visible name with the shadowed declaration as secondary location. (keys) the SSA version environment with SYMBOLIC identifier strings: the solver searches for two different (name, suffix) pairs sharing a version counter (e.g. `x`+suffix `0` vs `x_0`); fresh versions; scope exit restores the version current at entry. (split) `name` / `name.N` are split back into name and suffix.",
+   note=TB + "Outside: the statement/expression traversal of ssa_impl.rs that applies the keys (C14 part 2), for-loop scoping as produced by the parser, longer identifiers, repeated parameter names.",
    ref="DESIGN.md §3 C10"),
  'C11': dict(
    text="The real code from MIR with symbolic inputs: (a) primes and bit sizes for a symbolic curve; (b) Curve::from_str on every ASCII string of length 0..10; (c) the two template tables equal the table in doc/analysis_passes.md and find_bn254_specific_circuits flags `c = Name(x)` iff the documented table marks (name, curve), for the 26 names plus near misses and a symbolic curve; (d) find_nonstrict_binary_conversion flags Num2Bits/Bits2Num unless BN254/template/component with a known size n < 254, for ALL integers n; (e) the whole find_unconstrained_less_than pass on a 4-statement IR: an input counts as range-checked by Num2Bits(k) iff 2^k-1 <= p/2 for the curve, for ALL integers k. Counterexamples are replayed through the real parser, lifter and passes.",
@@ -61,8 +61,8 @@ CHECKS = {
    note=TB + "Outside: for/compound-assignment expansion (ast_shortcuts), real leaf lifting, longer decision sequences, larger programs.",
    ref="DESIGN.md §3 C12/C13"),
  'C14': dict(
-   text="Partial: the generic SSA driver (insert_phi_statements, insert_ssa_variables, insert_ssa_variables_impl) and DominatorTree::new executed from MIR with the SSAConfig types bound to harness models whose edge sets and written-variable sets are symbolic: for every rooted digraph on <=3 nodes with 2 variables (4 nodes with 1 variable) a phi for v is placed in block j iff j is in the iterated dominance frontier of the blocks writing v (oracle by paths) and at most once; renaming visits every block once, after its immediate dominator, with balanced scopes whose depth equals the dominator-tree depth; successor phis are updated exactly once right after each block.",
-   note=TB + "Outside: ssa_impl.rs (statement renaming, declaration re-issue, version keys), i.e. that every read names the most recent version on every path; larger graphs. Counterexamples are reported from the deterministic engine run (the harness-bound block type does not exist natively).",
+   text="Two parts. (1) The generic SSA driver (insert_phi_statements, insert_ssa_variables, insert_ssa_variables_impl) and DominatorTree::new executed from MIR with the SSAConfig types bound to harness models whose edge sets and written-variable sets are symbolic: for every rooted digraph on <=3 nodes with 2 variables (4 nodes with 1 variable) a phi for v is placed in block j iff j is in the iterated dominance frontier of the blocks writing v (oracle by paths) and at most once; renaming visits every block once, after its immediate dominator, with balanced scopes whose depth equals the dominator-tree depth; successor phis are updated exactly once right after each block. (2) The real conversion - real build_basic_blocks, DominatorTree, propagate_types / cache_variable_use, ssa_impl::Environment, the driver instantiated with the real Config (variables_written, new_phi_statement, is_phi_statement_for, ensure_phi_argument, insert_ssa_variables, visit_expression) and update_declarations - executed from MIR on every structured program (if / if-else / while) with <=4 (thorough 5) statements over an alphabet of assignments, increments, reads, element-wise array updates and a signal assignment on a parameter and a suffixed local whose identifier characters are solver variables (so `shadowing variable of the same name` vs `unrelated name` is the solver's choice): conversion succeeds when every read is definitely assigned; original statements preserved in order behind the phis; phis only at block heads; locals versioned and signals not; at most one definition per version; every read dominated by its definition (phi arguments defined on an incoming path); along every path with <=6 branch decisions each read names the version most recently assigned on that path and the incoming version is an argument of each phi; every version is covered by the re-issued declarations.",
+   note=TB + "Leaf lifting (AST leaf -> IR statement) is a harness stub that returns harness-built IR statements; part 2 replays steps 1-3 of Cfg::into_ssa in source order (their presence in into_ssa's MIR is checked on every run). The audit oracle is validated on every run against the real pipeline (native ssadump of three fixed programs). Counterexamples are reported from the deterministic engine run and replayed by re-executing the single program. Outside: other expression forms (calls, inline arrays, switch, component accesses), more statements, steps 4-5 of into_ssa (C06/C07).",
    ref="DESIGN.md §3 C14"),
  'C15': dict(
    text="Symbolic execution of the MIR of DominatorTree::new / compute_dominators / compute_immediate_dominators / compute_dominance_frontier with the generic node type bound to a harness node whose predecessor set is a symbolic subset of the nodes: for every rooted digraph within the node bound (quick <=4, thorough <=5 nodes; self loops and irreducible graphs included) the dominator sets, immediate dominators, dominator-tree children and dominance frontiers equal their path definitions and the three internal assertions are unreachable.",
